@@ -452,6 +452,50 @@ def _templates():
     hs('comment-after-string', '_t = "#" # ‹§›', c)
     hs('inside-string-after-hash', '_t = "# ‹§›"', s)
     hs('inside-triple-continuation', '_t = """\n^# ‹§›\n^"""', s)
+    # the cursor line begins (after indentation) with 'from ' and is NOT an import: continuation of 'yield from' /
+    # 'raise ... from' by brackets, nested brackets or a backslash, at several indentation levels
+    def fl(tid, tpl, kind=n):
+        add('fromline-' + tid, kind, tpl)
+    fl('yield-paren', 'def _g():\n    _t = (yield\n        from ‹§›)')
+    fl('yield-paren-same-indent', 'def _g():\n    _t = (yield\n    from ‹§›)')
+    fl('yield-paren-col0', 'def _g():\n    _t = (yield\n^from ‹§›)')
+    fl('yield-paren-deep-indent', 'def _g():\n    if 1:\n        for _i in ():\n            _t = (yield\n                  from ‹§›)')
+    fl('yield-paren-tab-after', 'def _g():\n    _t = (yield\n        from \t‹§›)')
+    fl('yield-in-list', 'def _g():\n    _t = [(yield\n        from ‹§›), 0]')
+    fl('yield-in-call', 'def _g():\n    print((yield\n            from ‹§›), 0)')
+    fl('yield-nested-brackets', 'def _g():\n    _t = {0: [0, ((yield\n      from ‹§›))]}')
+    fl('yield-in-subscript', 'def _g():\n    _t = §[(yield\n        from ‹§›)]')
+    fl('yield-expression-statement', 'def _g():\n    (yield\n     from ‹§›)')
+    fl('yield-lambda', '_t = lambda: (yield\n    from ‹§›)')
+    fl('yield-operand-more', 'def _g():\n    _t = (yield\n        from ‹§› or 0)')
+    fl('yield-from-call', 'def _g():\n    _t = (yield\n        from ‹§›(0))')
+    fl('yield-attr', 'def _g():\n    _t = (yield\n        from §.‹zq›)', al)
+    fl('yield-attr-chain', 'def _g():\n    _t = [(yield\n        from §.zq.‹zr›)]', al)
+    fl('yield-attr-on-call', 'def _g():\n    _t = (yield\n        from §().‹zq›)', al)
+    fl('yield-backslash', 'def _g():\n    yield \\\n        from ‹§›')
+    fl('yield-backslash-col0', 'def _g():\n    _t = yield \\\n^from ‹§›')
+    fl('yield-paren-then-backslash', 'def _g():\n    _t = (yield \\\n        from ‹§›)')
+    fl('raise-backslash', 'raise ValueError(§) \\\n    from ‹§›')
+    fl('raise-backslash-col0', 'raise ValueError(§) \\\n^from ‹§›')
+    fl('raise-backslash-deep', 'if 1:\n    try:\n        pass\n    except Exception:\n        raise ValueError(0) \\\n            from ‹§›')
+    fl('raise-backslash-attr', 'raise ValueError(0) \\\n    from §.‹zq›', al)
+    fl('raise-multiline-call-backslash', 'raise ValueError(0,\n                 §) \\\n    from ‹§›')
+    fl('raise-yield-in-brackets', 'def _g():\n    raise ValueError((yield\n        from ‹§›))')
+    fl('yield-paren-hash', 'def _g():\n    _t = ("#", (yield\n        from ‹§›))')
+    fl('yield-paren-after-partial', 'def _g():\n    _t = (yield\n        from ‹§›)\nfrom os import path')
+    # controls: genuinely half-typed imports (the text does not parse; prefix and clean proposals only)
+    pi = 'partial'
+    fl('partial-from', 'from ‹pk›', pi)
+    fl('partial-from-dotted', 'from pkg.‹mo›', pi)
+    fl('partial-from-dot-end', 'from os.‹›', pi)
+    fl('partial-from-relative', 'from .‹si›', pi)
+    fl('partial-from-import-name', 'from os.path import ‹jo›', pi)
+    fl('partial-from-import-second', 'from os import path, ‹se›', pi)
+    fl('partial-from-import-paren', 'from os import (path,\n    ‹se›', pi)
+    fl('partial-from-import-empty', 'from os import ‹›', pi)
+    fl('partial-from-relative-import-empty', 'from . import ‹›', pi)
+    fl('partial-from-next-to-yield-from', 'def _g():\n    _t = (yield\n        from §)\n    from ‹pk›', pi)
+    fl('partial-from-indented', 'if 1:\n    from pkg.‹su›', pi)
     # other identifier tokens (prefix + clean proposals only); several inside loop bodies, where a binding made by
     # the statement under the cursor reaches the cursor again over the loop back-edge
     def tok(role, tpl, tid=None):
@@ -557,7 +601,7 @@ def render_variant(lines, anchor, tpl, name):
     kind = tpl['kind']
     code = kind in ('name', 'attr-load', 'attr-store') or kind.startswith('token:')
     site = {'kind': kind.partition(':')[0] if code else 'text',
-            'ctx': 'code' if code else kind,
+            'ctx': 'code' if code else ('partial-import' if kind == 'partial' else kind),
             'line': L + k, 'start': s, 'end': e, 'ident': ident, 'variant': tpl['id'],
             'pre': char_class(new[k][s - 1] if s > 0 else None)}
     if kind.startswith('token:'):
@@ -567,6 +611,8 @@ def render_variant(lines, anchor, tpl, name):
 
 def site_is_real(text, lines, site):
     """sanity of a rendered variant: it parses and the focus is the node kind it claims to be"""
+    if site['ctx'] == 'partial-import':
+        return True           # a half-typed import: the text is not supposed to parse
     try:
         tree = ast.parse(text)
     except (SyntaxError, ValueError, RecursionError):
@@ -756,6 +802,12 @@ class Mon(object):
             if '#' in left and site['ctx'] == 'code':
                 p.count('hash_left_of_cursor_in_code_positions')
                 p.hist('hash_left_of_cursor', site.get('variant') or ('mutation:' + site.get('hash_mutation', 'natural')))
+            if left.lstrip().startswith('from ') and ' import ' not in left:
+                if site['ctx'] == 'code':
+                    p.count('from_line_not_import_positions')
+                    p.hist('from_line_not_import', site.get('variant') or ('mutation:' + site.get('fromline_mutation', 'natural')))
+                elif site['ctx'] == 'partial-import':
+                    p.count('from_line_partial_import_positions')
             if kind == 'token':
                 p.count('token_positions')
                 if site.get('in_loop'):
@@ -809,6 +861,8 @@ class Mon(object):
         p.count('clean_checked')
         if props:
             p.count('clean_checked_nonempty')
+            if site['ctx'] == 'partial-import':
+                p.count('from_line_partial_import_nonempty_proposals')
             if kind == 'token':
                 p.count('token_clean_checked_nonempty')
         self.clean(p, props, site, from_line, report, case, pos)
@@ -876,6 +930,10 @@ class Mon(object):
             return
         cell = '%s:%s' % (kind, where)
         p.count('transparency_compared')
+        if from_line:
+            p.count('transparency_compared_from_line_not_import')
+            if exp:
+                p.count('transparency_compared_from_line_not_import_nonempty')
         if '#' in lines[pos[0] - 1][:pos[1]]:
             p.count('transparency_compared_hash_left_of_cursor')
             if exp:
@@ -1013,6 +1071,51 @@ def check_hash_mutations(mon, env, lines, sites, rng, n):
         check_sites(mon, env, r[0], [r[1]], rng, 1)
 
 
+def fromline_mutation(lines, site, which):
+    """name read -> operand of a bracket-continued 'yield from' whose second line begins with 'from '"""
+    if site['kind'] != 'name':
+        return None
+    L = site['line']
+    line = lines[L - 1]
+    s, e = site['start'], site['end']
+    ind = line[:len(line) - len(line.lstrip())]
+    if which == 'yield-from-wrap':
+        first, second = line[:s] + '((yield', ind + '    from ' + line[s:e] + '))' + line[e:]
+    elif which == 'yield-from-wrap-col0':
+        first, second = line[:s] + '[(yield', 'from ' + line[s:e] + '), 0][0]' + line[e:]
+    else:
+        return None
+    start = second.index('from ') + 5
+    out = lines[:L - 1] + [first, second] + lines[L:]
+    ns = dict(site, line=L + 1, start=start, end=start + (e - s), fromline_mutation=which, pre='space')
+    try:
+        tree = ast.parse('\n'.join(out))
+    except (SyntaxError, ValueError, RecursionError):
+        return None
+    if find_node(tree, out, ns) is None:
+        return None
+    return out, ns
+
+
+def check_fromline_mutations(mon, env, lines, sites, rng, n):
+    part = mon.p
+    cand = [s for s in sites if s['kind'] == 'name']
+    rng.shuffle(cand)
+    done = 0
+    for site in cand:
+        if done >= n:
+            break
+        which = rng.choice(('yield-from-wrap', 'yield-from-wrap-col0'))
+        r = fromline_mutation(lines, site, which)
+        if r is None:
+            part.count('fromline_mutation_not_applicable')
+            continue
+        done += 1
+        part.count('fromline_mutations')
+        part.hist('fromline_mutation', which)
+        check_sites(mon, env, r[0], [r[1]], rng, 1)
+
+
 TESTED_BY_UNIT_TESTS = {('code', 'space'), ('code', 'dot'), ('code', 'lparen'), ('code', 'sol')}
 
 
@@ -1096,6 +1199,7 @@ def do_text(mon, env, text, rng, n_sites, interiors, with_variants, prefer=None)
     classes |= check_sites(mon, env, lines, tpick, rng, 1)
     n_hash = 12 if n_sites is None else max(4, n_sites // 2)
     check_hash_mutations(mon, env, lines, pick + tpick, rng, n_hash)
+    check_fromline_mutations(mon, env, lines, pick, rng, max(3, n_hash // 3))
     if with_variants:
         for vtext, vlines, site in variants_for(text, lines, rng, part, TEMPLATES, prefer):
             part.count('variants')
@@ -1235,6 +1339,10 @@ HAND = [
     ('class U:\n    name = 1\ncount = 2\nuser = U()\ntext = f"""\n# Report for {user.|name}: {count} items\n"""\n', 'attr-load'),
     ("name = 1\nx = r'\\'#' + name|\n", 'name'),
     ('name = 1\nx = "#" + name|  # trailing\n', 'name'),
+    ('first = [1]\ndef g():\n    got = (yield\n        from first|)\n    return got\n', 'name'),
+    ('first = [1]\ndef g():\n    got = [(yield\n from fir|st), 0]\n', 'name'),
+    ('import os\ndef g():\n    got = (yield\n        from os.|path)\n', 'attr-load'),
+    ('exc = 1\nraise ValueError(0) \\\nfrom exc|\n', 'name'),
 ]
 
 
@@ -1339,7 +1447,9 @@ def main(run):
                  'transparency_attr_compared', 'transparency_store_attr_compared', 'transparency_compared_nonempty',
                  'variants', 'corpus_files', 'gprog_programs', 'gclass_files', 'eol_variant_positions',
                  'token_positions', 'token_positions_in_loop', 'hash_left_of_cursor_in_code_positions',
-                 'transparency_compared_hash_left_of_cursor_nonempty', 'hash_mutations'),
+                 'transparency_compared_hash_left_of_cursor_nonempty', 'hash_mutations',
+                 'from_line_not_import_positions', 'transparency_compared_from_line_not_import_nonempty',
+                 'from_line_partial_import_nonempty_proposals', 'fromline_mutations'),
         assumptions=[
             'cursor position = (1-based tokenizer line, 0-based character column), as an editor reports it',
             'identifier character = [A-Za-z0-9_] or a non-ASCII c with ("a"+c).isidentifier()',
@@ -1351,6 +1461,9 @@ def main(run):
             'a share (%d%%) of all positions is run on a line-ending variant of the same text (CRLF, CR only, LF with one '
             'stray CR before the cursor line, CRLF with one lone CR); lines and cursor lines are counted the tokenizer way; '
             'a violation that disappears when the same lines are joined with LF is labelled line-ending:<variant>' % int(EOL_SHARE * 100),
+            "templates and mutations put name reads / attribute accesses on lines that begin with 'from ' but continue a "
+            "'yield from' / 'raise ... from' (brackets, nested brackets, backslash; several indentations); half-typed imports "
+            '(unparsable text: prefix and clean proposals only) run next to them as controls',
             "templates and mutations of existing lines put a '#' left of the cursor in every non-comment place (one-line "
             'strings of all quote/prefix kinds, escaped quotes, raw strings, continuation lines of triple-quoted strings and '
             'f-strings with replacement fields, format specs, backslash-continued strings) and real trailing comments after '
